@@ -510,3 +510,16 @@ Definition rgt_access (d : rg) (i : N) : bool := match rg_access d i with Some b
 Definition rgt_rank1 (d : rg) (i : N) : N := match rg_rank1 d i with Some v => v | None => 0 end.
 Definition rgt_select1 (d : rg) (j : N) : N := match rg_select1 d j with Some v => v | None => 0 end.
 Definition rgt_select0 (d : rg) (j : N) : N := match rg_select0 d j with Some v => v | None => 0 end.
+
+(* checker: the code bits tell any two different symbols of s apart within [depth] levels
+   (true for every prefix-free code whose longest codeword has [depth] bits) *)
+Definition differ_at (is_set : N -> nat -> bool) (depth : nat) (a b : N) : bool :=
+  existsb (fun k => xorb (is_set a k) (is_set b k)) (seq 0 depth).
+Definition separable_b (is_set : N -> nat -> bool) (depth : nat) (s : list N) : bool :=
+  forallb (fun a => forallb (fun b => (a =? b) || differ_at is_set depth a b) s) s.
+(* is_set of a code table: bit l of the codeword of the symbol, false beyond its end *)
+Definition code_bit (table : list (N * list bool)) (x : N) (l : nat) : bool :=
+  match find (fun e => fst e =? x) table with
+  | Some e => nth l (snd e) false
+  | None => false
+  end.
